@@ -31,6 +31,10 @@ def plan(tier, seed):
         specs.append(dict(name="synth-%d" % p, mode="interp", what="synth", n=n, seed=[seed, 55, p]))
     specs.append(dict(name="synth-jit", mode="jit", what="synth", n=40 if q else 300, seed=[seed, 56, 0], jit=True))
     specs.append(dict(name="synth-jitbc", mode="jit_bc", what="synth", n=30 if q else 200, seed=[seed, 57, 0], jit=True))
+    # the same work in an interpreter started with -O (assert statements compiled away)
+    byname = {sp["name"]: sp for sp in specs}
+    if 'synth-0' in byname:
+        specs.append(common.under_O(byname['synth-0'], **{'n': 40}))
     return specs
 
 
